@@ -708,6 +708,48 @@ end Lookup
 section Rows
 variable {κ ν : Type} [DecidableEq κ]
 
+theorem rset_of_not_mem (d : List (κ × ν)) (k : κ) (v : ν) (h : k ∉ d.map (·.1)) :
+    rset d k v = d ++ [(k, v)] := by
+  induction d with
+  | nil => rfl
+  | cons a r ih =>
+    obtain ⟨k', v'⟩ := a
+    simp only [List.map_cons, List.mem_cons, not_or] at h
+    have hne : ¬ k' = k := fun e => h.1 e.symm
+    simp [rset, hne, ih h.2]
+
+theorem foldl_rset_of_nodup (l acc : List (κ × ν)) (h : ((acc ++ l).map (·.1)).Nodup) :
+    l.foldl (fun d kv => rset d kv.1 kv.2) acc = acc ++ l := by
+  induction l generalizing acc with
+  | nil => simp
+  | cons a r ih =>
+    simp only [List.foldl_cons]
+    have hn : a.1 ∉ acc.map (·.1) := by
+      intro hm
+      rw [List.map_append, List.map_cons] at h
+      have := (List.nodup_append.mp h).2.2 a.1 hm a.1 (by simp)
+      exact this rfl
+    rw [rset_of_not_mem acc a.1 a.2 hn, ih (acc ++ [a]) (by simpa [List.append_assoc] using h)]
+    simp [List.append_assoc]
+
+/-- with pairwise distinct column names the row dict is just the list of its cells -/
+theorem rupdate_of_nodup (l : List (κ × ν)) (h : (l.map (·.1)).Nodup) : rupdate l = l := by
+  unfold rupdate
+  rw [foldl_rset_of_nodup l [] (by simpa using h)]
+  rfl
+
+theorem collectorLabels_nodup (s : Spec κ ν) (h : ColsDistinct s) : (collectorLabels s).Nodup := by
+  unfold ColsDistinct columns at h
+  unfold collectorLabels
+  have p : (s.iterOn ++ s.zipOn ++ s.outputs.map s.colmap).Perm
+      (s.outputs.map s.colmap ++ (s.zipOn ++ s.iterOn)) :=
+    List.perm_append_comm.trans (List.Perm.append_left _ List.perm_append_comm)
+  exact p.nodup_iff.mp h
+
+theorem listsClash_false (s : Spec κ ν) (v : Valid s) : listsClash s = false := by
+  unfold listsClash
+  simp [collectorLabels_nodup s v.cols]
+
 
 theorem lookup_of_mem_keys {β : Type} (l : List (κ × β)) (k : κ) (h : k ∈ l.map (·.1)) :
     ∃ v, l.lookup k = some v ∧ (k, v) ∈ l := by
@@ -779,6 +821,11 @@ theorem rowAt_lift (s : Spec κ ν) (cur : Cur κ ν) (v : Valid s) (g : Good s 
     intro o _
     simp [bodyOutAt, hn, bodyOut_lift s cur g vd hk o]
   rw [h2]
+  simp only
+  rw [rupdate_of_nodup]
+  have := v.cols
+  unfold ColsDistinct columns at this
+  simpa [List.map_append, hk, Function.comp_def] using this
 
 omit [DecidableEq κ] in
 theorem enum_map {α β : Type} (a : Nat) (l : List α) (f : α → β) :
@@ -1001,6 +1048,7 @@ theorem run_good (s : Spec κ ν) (st : St κ ν) (cur : Cur κ ν) (order : Lis
   unfold run
   rw [hmiss, ready_of_good s cur g]
   simp only [↓reduceIte, Bool.false_eq_true, indexMapsOf_good s cur v g, not_stranded s cur v g,
+    listsClash_false s v,
     Bool.and_false, evalOuts_ref s cur v g order hc, complete_refOuts, Bool.true_or, Bool.and_true]
 
 end RunGood
@@ -1161,7 +1209,7 @@ theorem run_inv (s : Spec κ ν) (st : St κ ν) (cur : Cur κ ν) (order : List
       · simp at h; exact g (h ▸ gc)
     unfold run
     rw [hhit']
-    simp only [Bool.false_eq_true, ↓reduceIte]
+    simp only [Bool.false_eq_true, ↓reduceIte, listsClash_false s v]
     split
     · split
       · exact inv
